@@ -18,8 +18,11 @@ RULE = ('(a) nested schedules over {lookup, register, replace}: up to 6 top-leve
         'permissions, MultiViews, exception classes as resources, short-lived per-instance-marked resources '
         '(directlyProvides), steps on several OS threads one after the other, requests probed at every Python step of '
         'MultiView.add, ONE request object dispatched several times (route URL / no-route URL in both orders), the registry '
-        're-initialised through pyramid.testing.tearDown and used again; every response compared with a freshly built '
-        'application. Non-trivial = some lookup/request was answered by a view and (a) an operation ran inside another / '
+        're-initialised through pyramid.testing.tearDown and used again, invoke_exception_view on (re-)dispatched request '
+        'objects, view statements committed in batches by a non-autocommit Configurator on the live registry with an action '
+        'that raises midway, the route added again at run time (with/without use_global_views); every response compared '
+        'with a freshly built application that went through the same configuration history; the resolution orders of the '
+        'live interfaces compared with the oracle at the end of every history. Non-trivial = some lookup/request was answered by a view and (a) an operation ran inside another / '
         '(b) a registration followed a request; distinct by full case')
 ASSUMPTIONS = ['a registration is ONE step (the property injects registrations as whole operations into in-progress lookups; lookups '
                'pre-empting a registration half-way are outside its quantifier) -- except that requests ARE probed at every Python '
@@ -28,6 +31,8 @@ ASSUMPTIONS = ['a registration is ONE step (the property injects registrations a
                'every instruction of the translated programs (attribute read/rebind, dict get/set, one adapter-registry query, '
                'lock acquire/release) is atomic (GIL-level); the adapter registry is a map slot -> view and registerAdapter is one step',
                'deterministic pre-emption realises properly nested interleavings only; free-running threads are a test (thorough tier)',
+               'the resolution order (__sro__) of every interface / specification object is fixed for the life of the process '
+               '(fail-closed fact over src/pyramid + pin of add_route.register_route_request_iface; observed at the end of every history)',
                'a re-initialisation of the registry (Registry.__init__ run again) is ONE step and is modelled in idle states only '
                '(no lookup or registration in flight); Components.__init__ drops every registration (zope, validated by correspondence)']
 TRUSTED = ['translator harness/c15/translate.py (Python ast -> instruction lists, cache key, init program, gen_call_view; fail-closed; '
@@ -48,7 +53,12 @@ LEVEL_TEXT = ('Machine-checked theorems over every trace (unbounded threads and 
               'states (init program translated from Registry.__init__; for every init program that clears the cache and drops the '
               'registrations, in whichever order; an init program that keeps the cache is refuted). The request type a Router '
               'dispatch looks views up with is proved independent of earlier dispatches of the same request object (facts read '
-              'from Router.handle_request; refuted without the reset). _call_view is translated and proved equal to its reference '
+              'from Router.handle_request; refuted without the reset), also for exception-view lookups (combined interface). '
+              'A commit on the live registry that fails midway leaves exactly the executed view actions in force and every later '
+              'lookup sees them (registration and clear are one action; a clear deferred to a later action = the refuted NoClear '
+              'program). The resolution orders are a fixed oracle of every theorem: a regenerated fact says nothing in src/pyramid '
+              'rewrites __bases__/__sro__ or a class specification, and a rewrite under a warm cache is refuted by a concrete '
+              'history. _call_view is translated and proved equal to its reference '
               'model (first candidate that does not raise PredicateMismatch answers). '
               'The theorems are for a cache key that contains the view classifier (regenerated fact cache_key_mode); for the key '
               '(request_iface, context_iface, view_name) freshness is refuted by a concrete history and proved only for histories '
@@ -166,6 +176,13 @@ def facts(src):
     except Exception as e:
         reads_only = False
         problems.append('view.py:_call_view does not just iterate over the cached candidate list: %s' % e)
+    # the meaning of a cache key (the resolution orders of the interface objects in it) is never rewritten
+    orders_fixed = True
+    try:
+        T.spec_orders_immutable(src)
+    except Exception as e:
+        orders_fixed = False
+        problems.append('resolution orders of interfaces/specifications are rewritten: %s' % e)
     # _call_view: the control flow around the candidate calls, regenerated
     gen_cv = T.CV_FALLBACK
     try:
@@ -236,17 +253,19 @@ def facts(src):
            '(* Router.handle_request: request.request_iface reset to IRequest before routing / set for a matched route *)\n'
            'Definition router_resets_iface : bool := %s.\n'
            'Definition router_sets_route_iface : bool := %s.\n'
+           '(* nothing in src/pyramid rewrites __bases__/__sro__ of an interface or the specification of a class *)\n'
+           'Definition spec_orders_immutable : bool := %s.\n'
            '(* translated from pyramid.view._call_view: which candidate of the list returned by _find_views answers *)\n'
            '%s'
            % ('; '.join(str(T.VIEW_TYPE_IDS[n]) for n in vt), T.coq_prog(lookup), ', '.join(key_names),
               'KeyFull' if 'view_classifier' in key_names else 'KeyTriad', F.coq_bool('view_types' in key_names),
               mode, fmode, T.coq_prog(register), T.coq_prog(register).replace('clear_mode_registry', 'clear_mode_fallback'),
               F.coq_bool(reads_only), F.coq_bool(mv_stateless),
-              T.coq_prog(init_prog), F.coq_bool(resets), F.coq_bool(sets_route), gen_cv))
+              T.coq_prog(init_prog), F.coq_bool(resets), F.coq_bool(sets_route), F.coq_bool(orders_fixed), gen_cv))
     summary.update({'lookup_prog': T.coq_prog(lookup), 'register_prog': T.coq_prog(register).replace('clear_mode_registry', mode),
                     'clear_mode': mode, 'clear_mode_fallback': fmode, 'init_prog': T.coq_prog(init_prog).replace('clear_mode_registry', mode),
                     'router_resets_iface': resets, 'router_sets_route_iface': sets_route,
-                    'gen_call_view_is_reference_text': gen_cv == T.CV_FALLBACK, 'view_types': vt, 'params': T.flat_params(lookup), 'call_view_reads_only': reads_only, 'multiview_stateless': mv_stateless, 'cache_key': key_names,
+                    'gen_call_view_is_reference_text': gen_cv == T.CV_FALLBACK, 'spec_orders_immutable': orders_fixed, 'view_types': vt, 'params': T.flat_params(lookup), 'call_view_reads_only': reads_only, 'multiview_stateless': mv_stateless, 'cache_key': key_names,
                     'cache_key_mode': 'KeyFull' if 'view_classifier' in key_names else 'KeyTriad',
                     'theorems_applying': ('C15_lookup_fresh (full key)' if 'view_classifier' in key_names else
                                           'C15_lookup_fresh_ordinary_only_partial + C15_lookup_fresh_KeyTriad_refuted')})
@@ -380,6 +399,56 @@ class Book:
         return out
 
 
+def effective(hist):
+    """per step: does it take effect?  V steps of a commit batch ('bt') that come after the failing action X of their
+    batch are never executed (the commit stops at the action that raises; the actions executed before it stay in
+    force); X and A steps spawn nothing in the model."""
+    out = []
+    failed = None
+    prev_bt = None
+    for st in hist:
+        bt = st.get('bt')
+        if bt != prev_bt:
+            failed = None
+        prev_bt = bt
+        if st['t'] == 'X':
+            failed = bt
+            out.append(False)
+        elif st['t'] == 'V':
+            out.append(not (bt is not None and failed == bt))
+        else:
+            out.append(True)
+    return out
+
+
+def prev_dispatch(hist, idx):
+    """the Router dispatch (via=2, ordinary lookup) whose request object step idx refers to: the nearest earlier one,
+    not separated from it by a re-initialisation; None if there is none"""
+    for j in range(idx - 1, -1, -1):
+        st = hist[j]
+        if st.get('t') == 'I':
+            return None
+        if st.get('t') == 'Q' and st.get('via') == 2 and st.get('cl') == 0:
+            return st
+    return None
+
+
+def batches(hist):
+    """[(start, end)] of the maximal runs of consecutive steps with the same batch tag"""
+    out, i = [], 0
+    while i < len(hist):
+        bt = hist[i].get('bt')
+        if bt is None:
+            i += 1
+            continue
+        j = i
+        while j < len(hist) and hist[j].get('bt') == bt:
+            j += 1
+        out.append((i, j))
+        i = j
+    return out
+
+
 def gen_hist(rng):
     use_accept = rng.random() < 0.6
     use_perm = rng.random() < 0.5
@@ -389,6 +458,11 @@ def gen_hist(rng):
     use_probe = rng.random() < 0.35   # a request made at every step of MultiView.add while a registration runs
     use_reinit = rng.random() < 0.2   # the registry is re-initialised (testing.tearDown) and used again
     use_sub = rng.random() < 0.3      # request OBJECTS dispatched by the Router, some of them more than once
+    use_batch = rng.random() < 0.3    # view statements committed together on the live registry; some commits fail midway
+    use_readd = rng.random() < 0.15   # the route r1 is added again at run time
+    if use_readd:
+        use_sub = True
+    nbatch = [0]
     tag = [0]
     tri = []
     steps = []
@@ -462,10 +536,34 @@ def gen_hist(rng):
                 q['th'] = rng.choice([0, 1, 1, 2])
             lastq = q
             steps.append(q)
+            if use_exc and q['via'] == 2 and q['cl'] == 0 and rng.random() < 0.4:
+                e = Q(q['req'], rng.choice(EXC_CTX), rng.choice(METHODS), 0, q['h'], q['u'], q['s'], 1, 2)
+                e['same'] = 1
+                steps.append(e)
             if use_reinit and rng.random() < 0.25:
                 steps.append({'t': 'I'})
                 if rng.random() < 0.7:
                     steps.append(dict(q))           # the lookup served before, asked again of the emptied registry
+        elif use_readd and rng.random() < 0.3:
+            steps.append({'t': 'A', 'g': rng.choice([0, 1, 1])})
+            if lastq is not None and rng.random() < 0.7:
+                steps.append(dict(lastq))
+        elif use_batch and rng.random() < 0.6:
+            nbatch[0] += 1
+            vs, seen = [], set()
+            for _ in range(rng.choice([1, 2, 2, 3])):
+                v = reg()
+                d = (v['rq'], v['ctx'], v['name'], v['pred'], v['acc'])
+                if d in seen:
+                    continue
+                seen.add(d)
+                v['bt'] = nbatch[0]
+                vs.append(v)
+            if rng.random() < 0.65:
+                vs.insert(rng.choice([len(vs), len(vs), rng.randrange(len(vs) + 1)]), {'t': 'X', 'bt': nbatch[0]})
+            steps.extend(vs)
+            if lastq is not None and rng.random() < 0.6:
+                steps.append(dict(lastq))
         else:
             v = reg()
             if use_threads:
@@ -583,6 +681,32 @@ def hist_scenarios():
     out.append({'hist': [V(1, 'A', None, 1), qs(1, 'A', 0), qs(2, 'A', 1), qs(1, 'A', 1), V(2, 'A', 'POST', 2),
                          qs(2, 'A', 1, 'POST'), qs(1, 'A', 1, 'POST'), V(1, 'A', 'POST', 3), qs(2, 'A', 1, 'POST'),
                          qs(1, 'A', 1, 'POST')]})
+    # request.invoke_exception_view on a request object the Router dispatched once / several times
+    def qe(req, ctx, m='GET'):
+        d = Q(req, ctx, m, 0, cl=1, via=2)
+        d['same'] = 1
+        return d
+    out.append({'hist': [V(1, 'X', None, 1, 0, None, 0, 1), V(2, 'X', None, 2, 0, None, 0, 1), V(1, 'A', None, 3),
+                         V(2, 'A', None, 4), qs(2, 'A', 0), qe(2, 'X'), qs(1, 'A', 1), qe(1, 'X'), qe(1, 'Y'),
+                         qs(2, 'A', 1), qe(2, 'Y'), qs(1, 'B', 0), qe(1, 'X')]})
+    # view statements committed together on the live registry by a non-autocommit Configurator; an action of the commit
+    # raises: the actions executed before it stay in force (and must be seen by every later lookup, warm cache or not),
+    # the ones behind it never run
+    def bt(v, n):
+        v = dict(v)
+        v['bt'] = n
+        return v
+    out.append({'hist': [V(1, 'A', None, 1), Q(1, 'A', 'GET'), bt(V(1, 'A', None, 2), 1), {'t': 'X', 'bt': 1},
+                         Q(1, 'A', 'GET'), Q(1, 'A', 'GET', via=1)]})
+    out.append({'hist': [V(1, 'A', None, 1), V(1, 'B', None, 2), Q(1, 'A', 'GET'), Q(1, 'B', 'GET'),
+                         bt(V(1, 'A', 'POST', 3), 1), {'t': 'X', 'bt': 1}, bt(V(1, 'B', None, 4), 1),
+                         Q(1, 'A', 'POST'), Q(1, 'B', 'GET'), bt(V(1, 'B', None, 5), 2), bt(V(1, 'A', 'POST', 6), 2),
+                         Q(1, 'A', 'POST'), Q(1, 'B', 'GET'), {'t': 'X', 'bt': 3}, bt(V(1, 'A', None, 7), 3), Q(1, 'A', 'GET')]})
+    # the route r1 is added again at run time (with and without use_global_views) after lookups for the route were
+    # served: a route view that only accepts POST, a global view, GET /r1 before and after
+    out.append({'hist': [V(2, 'A', 'POST', 1), V(1, 'A', None, 2), qs(2, 'A', 0), qs(2, 'A', 0, 'POST'), qs(1, 'A', 0),
+                         {'t': 'A', 'g': 1}, qs(2, 'A', 0), qs(2, 'A', 0, 'POST'), qs(1, 'A', 0), {'t': 'A', 'g': 0},
+                         qs(2, 'A', 1), V(2, 'A', None, 3), qs(2, 'A', 0)]})
     for c in out:
         c.setdefault('order', 0)
         c.setdefault('foreign', 0)
@@ -833,7 +957,15 @@ def valid(case):
             for st in case['hist']:
                 if not isinstance(st, dict):
                     return False
-                if st.get('t') == 'I':
+                if st.get('t') == 'X':
+                    # an action that raises, in a commit batch on the live registry
+                    if set(st) != {'t', 'bt'} or not isinstance(st['bt'], int) or not (0 < st['bt'] < 1000):
+                        return False
+                elif st.get('t') == 'A':
+                    # the route r1 is added AGAIN on the live registry (use_global_views = g)
+                    if set(st) != {'t', 'g'} or st['g'] not in (0, 1):
+                        return False
+                elif st.get('t') == 'I':
                     # the registry is re-initialised (Registry.__init__ run again, through pyramid.testing.tearDown)
                     if set(st) != {'t'} or case.get('foreign'):
                         return False
@@ -841,18 +973,22 @@ def valid(case):
                     if set(st) - {'th', 'mark', 'same'} != {'t', 'req', 'ctx', 'name', 'm', 'h', 'u', 's', 'cl', 'via'} \
                             or st['req'] not in ((1, 2) if st['via'] == 2 else (1, 3)) or st.get('th', 0) not in (0, 1, 2) \
                             or st.get('same', 0) not in (0, 1) or (st.get('same') and st['via'] != 2) \
-                            or (st['via'] == 2 and (st['cl'] or st['s'] != 1 or (st['req'] == 2 and st['name']))) \
+                            or (st['via'] == 2 and st['cl'] == 0 and (st['s'] != 1 or (st['req'] == 2 and st['name']))) \
+                            or (st['via'] == 2 and st['cl'] == 1 and (st.get('same') != 1 or st.get('mark'))) \
                             or st.get('mark') not in (None,) + MARKS \
                             or (st.get('mark') and ((st['ctx'], st['mark']) not in SPEC or st['cl'])) \
                             or st['cl'] not in (0, 1) or st['via'] not in (0, 1, 2) \
-                            or (st['cl'] == 1 and (st['ctx'] not in EXC_CTX or st['name'] != 0 or st['via'])) \
+                            or (st['cl'] == 1 and (st['ctx'] not in EXC_CTX or st['name'] != 0 or st['via'] == 1)) \
                             or (st['via'] == 1 and (st['req'] != 1 or st['s'] != 1)) \
                             or st['m'] not in METHODS or st['u'] not in (0, 1) or st['s'] not in (0, 1) \
                             or st['h'] not in HDR \
                             or st['ctx'] not in ('A', 'B', 'C', 'D', 'E', 'X', 'Y') or st['name'] not in (0, 1):
                         return False
                 elif st.get('t') == 'V':
-                    if set(st) - {'th', 'probe'} != {'t', 'rq', 'ctx', 'name', 'pred', 'acc', 'perm', 'exc', 'tag'} \
+                    if st.get('bt') is not None and (not isinstance(st['bt'], int) or not (0 < st['bt'] < 1000)
+                                                     or st.get('probe') or st.get('th')):
+                        return False
+                    if set(st) - {'th', 'probe', 'bt'} != {'t', 'rq', 'ctx', 'name', 'pred', 'acc', 'perm', 'exc', 'tag'} \
                             or st['rq'] not in (1, 2) or st.get('th', 0) not in (0, 1, 2) \
                             or not _probe_ok(st.get('probe')) \
                             or st['exc'] not in (0, 1) \
@@ -863,6 +999,26 @@ def valid(case):
                             or st['name'] not in (0, 1) or not isinstance(st['tag'], int) or not (0 < st['tag'] < 90000):
                         return False
                 else:
+                    return False
+            # the answer oracle identifies views by tag: tags are distinct within a history
+            tags = [st['tag'] for st in case['hist'] if st['t'] == 'V']
+            if len(tags) != len(set(tags)):
+                return False
+            # invoke_exception_view on a dispatched request object: the object of an earlier Router dispatch
+            for i, st in enumerate(case['hist']):
+                if st['t'] == 'Q' and st['via'] == 2 and st['cl'] == 1:
+                    pd = prev_dispatch(case['hist'], i)
+                    if pd is None or pd['req'] != st['req']:
+                        return False
+            # a batch is one run of consecutive steps; its view statements must not conflict with each other
+            seen_bt = set()
+            for a, b in batches(case['hist']):
+                bt = case['hist'][a]['bt']
+                if bt in seen_bt:
+                    return False
+                seen_bt.add(bt)
+                ds = [(x['rq'], x['ctx'], x['name'], x['pred'], x['acc']) for x in case['hist'][a:b] if x['t'] == 'V']
+                if len(ds) != len(set(ds)) or len([1 for x in case['hist'][a:b] if x['t'] == 'X']) > 1:
                     return False
             return True
         if not isinstance(case, dict) or set(case) | {'foreign'} != {'init', 'ops', 'foreign'} \
@@ -913,7 +1069,11 @@ def to_wire(case):
         book = Book(_impl['override_unregisters'], _impl['orders'][case['order']])
         ops, ans = [], []
         chain = None
+        eff = effective(case['hist'])
         for oid, st in enumerate(case['hist']):
+            if st['t'] in ('X', 'A') or not eff[oid]:
+                continue            # nothing happens in the model: a failing action, a route added again, a view
+                                    # statement behind the failing action of its commit
             if st['t'] == 'I':
                 ops.append([2, oid])
                 book = Book(_impl['override_unregisters'], _impl['orders'][case['order']])
@@ -922,7 +1082,12 @@ def to_wire(case):
                 # dispatched by the Router on a request OBJECT that may have been dispatched before: the model
                 # computes the request type of the lookup from the chain of route matches of that object
                 m = [I_ROUTE] if st['req'] == 2 else []
-                chain = (chain + [m]) if (st.get('same') and chain is not None) else [m]
+                if st['cl'] == 1:
+                    pass            # invoke_exception_view on the dispatched object: no new dispatch
+                else:
+                    chain = (chain + [m]) if (st.get('same') and chain is not None) else [m]
+                if chain is None:
+                    chain = [m]
                 ops.append([3, oid, [st['cl'], qctx(st), st['name']], chain])
                 ans.append([oid, book.table(st)])
             elif st['t'] == 'Q':
@@ -1332,10 +1497,11 @@ class _World:
                              name=NAMES[r['name']], route_name='r1' if r['rq'] == 2 else None,
                              permission='p' if r['sec'] else None)
 
-    def add_view_pred(self, v):
+    def add_view_pred(self, v, config=None, scan=True):
         from pyramid.response import Response
         from pyramid.interfaces import IMultiView, IViewClassifier
         tag = v['tag']
+        config = config or self.config
 
         def view(context, request):
             r = Response('')
@@ -1345,13 +1511,18 @@ class _World:
         def ctxarg(c):
             return None if c is None else _impl['markers'][c] if c in MARKS else _impl['classes'][c]
         if v['exc']:
-            self.config.add_exception_view(view, context=_impl['classes'][v['ctx']],
-                                           route_name='r1' if v['rq'] == 2 else None,
-                                           request_method=v['pred'], accept=ACC[v['acc']])
+            config.add_exception_view(view, context=_impl['classes'][v['ctx']],
+                                      route_name='r1' if v['rq'] == 2 else None,
+                                      request_method=v['pred'], accept=ACC[v['acc']])
         else:
-            self.config.add_view(view, context=ctxarg(v['ctx']),
+            config.add_view(view, context=ctxarg(v['ctx']),
                                  name=NAMES[v['name']], route_name='r1' if v['rq'] == 2 else None,
                                  request_method=v['pred'], accept=ACC[v['acc']], permission='p' if v['perm'] else None)
+        if scan:
+            self.scan_multiviews(v)
+
+    def scan_multiviews(self, v):
+        from pyramid.interfaces import IMultiView
         ctx_iface = _impl['Interface'] if v['ctx'] is None else \
             _impl['markers'][v['ctx']] if v['ctx'] in MARKS else self.ctx[v['ctx']]
         for cl, classifier in self.classifiers.items():
@@ -1381,7 +1552,35 @@ class _World:
         _impl['last_found'] = None
         _impl['first_found'] = None
         try:
-            if st['cl'] == 1:
+            if st['cl'] == 1 and st['via'] == 2:
+                # invoke_exception_view on a request OBJECT the Router has dispatched (same=1: the object of the previous
+                # dispatch step, whatever was dispatched on it before); in a freshly built application: a brand-new
+                # request dispatched once to the URL of that last dispatch
+                from pyramid.httpexceptions import HTTPNotFound
+                r2 = self.sub_request
+                if r2 is None:
+                    if self.router is None:
+                        from pyramid.router import Router
+                        self.router = Router(self.reg)
+                    r2 = Request.blank('/r1' if st['req'] == 2 else '/')
+                    r2.environ['c15.root'] = self.make_context('D')
+                    try:
+                        self.router.invoke_subrequest(r2, use_tweens=True)
+                    except Exception:
+                        pass
+                    _impl['first_found'] = None
+                r2.method = st['m']
+                for hk in ('X-User', 'Accept'):
+                    r2.headers.pop(hk, None)
+                    if hk in r.headers:
+                        r2.headers[hk] = r.headers[hk]
+                try:
+                    resp = r2.invoke_exception_view(exc_info=(type(ctx), ctx, None), secure=bool(st['s']))
+                except HTTPForbidden:
+                    raise
+                except HTTPNotFound:
+                    resp = None
+            elif st['cl'] == 1:
                 # exception-view lookup through the public API; request_iface.combined is what it looks up with
                 if st['req'] == 3:
                     r.request_iface = self.req[2]
@@ -1484,6 +1683,52 @@ class _World:
             self.reg.adapters = self.proxy
         self.threads.append([1, [], crashed, 1, 0])
         self.answers.append(0)
+
+    def hist_commit(self, items):
+        """items: [(oid, step)] of one batch.  The statements are made on a NON-autocommit Configurator for the live
+        registry and committed together; an X step is an action that raises: the commit stops there
+        (ConfigurationExecutionError, caught -- the application goes on running), the actions executed before it stay
+        in force."""
+        from pyramid.exceptions import ConfigurationExecutionError
+
+        def boom():
+            raise RuntimeError('c15: this action fails')
+        cfg = _impl['Configurator'](registry=self.reg, autocommit=False, package=_impl['pview'])
+        self.reg.adapters = self.real
+        crashed = 0
+        done = []
+        try:
+            failed = False
+            for oid, st in items:
+                if st['t'] == 'X':
+                    cfg.action(None, boom)
+                    failed = True
+                else:
+                    self.add_view_pred(st, config=cfg, scan=False)
+                    if not failed:
+                        done.append((oid, st))
+            try:
+                cfg.commit()
+            except ConfigurationExecutionError:
+                pass
+            for oid, st in done:
+                self.scan_multiviews(st)
+        except Exception:
+            crashed = 1
+        finally:
+            self.reg.adapters = self.proxy
+        for oid, st in done:
+            self.spawn.append(oid)
+            self.threads.append([1, [], crashed, 1, 0])
+            self.answers.append(0)
+
+    def readd_route(self, st):
+        """the route r1 is added again on the live registry (an application overriding an add-on's route at run time)"""
+        self.reg.adapters = self.real
+        try:
+            self.config.add_route('r1', '/r1', use_global_views=bool(st['g']))
+        finally:
+            self.reg.adapters = self.proxy
 
     def add_view_traced(self, st, tracer):
         import sys
@@ -1713,8 +1958,33 @@ def run_hist(case):
     fresh = []
     probes = []
     epoch = 0          # index of the first step after the last re-initialisation
+    eff = effective(case['hist'])
+    bstart = {a: b for a, b in batches(case['hist'])}
+    skip_to = 0
+
+    def replay(f, upto):
+        # the configuration history in force: statements since the last re-initialisation that took effect
+        for j in range(epoch, upto):
+            prev = case['hist'][j]
+            if prev['t'] == 'V' and eff[j]:
+                f.add_view_pred(prev)
+            elif prev['t'] == 'A':
+                f.config.add_route('r1', '/r1', use_global_views=bool(prev['g']))
     for oid, st in enumerate(case['hist']):
-        if st['t'] == 'I':
+        if oid < skip_to:
+            continue
+        if oid in bstart:
+            w.hist_commit([(j, case['hist'][j]) for j in range(oid, bstart[oid])])
+            for j in range(oid, bstart[oid]):
+                if case['hist'][j]['t'] == 'V' and eff[j]:
+                    fresh.append(0)
+            skip_to = bstart[oid]
+        elif st['t'] == 'A':
+            try:
+                w.readd_route(st)
+            except Exception as e:
+                probes.append(['readd-route-crashed', type(e).__name__])
+        elif st['t'] == 'I':
             try:
                 w.reinit()
             except Exception as e:
@@ -1723,9 +1993,7 @@ def run_hist(case):
         elif st['t'] == 'Q':
             w.hist_request(st, oid)
             f = _World(order=case['order'], foreign=case.get('foreign', 0))
-            for prev in case['hist'][epoch:oid]:
-                if prev['t'] == 'V':
-                    f.add_view_pred(prev)
+            replay(f, oid)
             a, crashed = f.request(st)
             fresh.append(['FRESH-CRASH'] if crashed else a)
         else:
@@ -1735,9 +2003,7 @@ def run_hist(case):
                 allowed = []
                 for upto in (oid, oid + 1):
                     f = _World(order=case['order'], foreign=case.get('foreign', 0))
-                    for prev in case['hist'][epoch:upto]:
-                        if prev['t'] == 'V':
-                            f.add_view_pred(prev)
+                    replay(f, upto)
                     a, crashed = f.request(st['probe'])
                     allowed.append(['FRESH-CRASH'] if crashed else a)
                 got = []
@@ -1747,6 +2013,18 @@ def run_hist(case):
                 bad = [a for a in got if a not in allowed]
                 probes.append(1 if not bad else ['during', bad, 'before/after', allowed])
     cache = w.cache()
+    # the resolution orders the model was given as its oracle must still be those of the live interfaces: a change of
+    # what a (possibly cached) key MEANS is reported; the model's expectations then do not transfer (spec_holds)
+    try:
+        want = dict((i, l) for i, l in _sro_tbl)
+        for iface, i in sorted(w.iface_ids.items(), key=lambda kv: kv[1]):
+            if iface not in (w.req[2], w.req[3]) and i in (I_ROUTE, I_COMBINED):
+                continue            # route interfaces of an earlier life of the registry
+            now = [w.iid(x) for x in iface.__sro__]
+            if want.get(i) != now:
+                probes.append(['sro-changed', i, now])
+    except Exception as e:
+        probes.append(['sro-unreadable', type(e).__name__])
     w.close()
     return [w.threads, w.spawn, cache, w.answers, fresh, probes]
 
@@ -1788,12 +2066,15 @@ def spec_holds(case, obs, spec):
     if not isinstance(obs, list) or len(obs) != 6 or (obs and obs[0] == 'HARNESS-EXC'):
         return None
     threads, spawn, cache, answers, fresh, probes = obs
-    if any(p != 1 for p in probes):
+    drift = [p for p in probes if isinstance(p, list) and p and p[0] == 'sro-changed']
+    if any(p != 1 and p not in drift for p in probes):
         return False        # a request made while a registration ran was answered like neither before nor after it
     # history independence, judged without the model: every request is answered like a freshly built application
-    # holding the same registrations answers that single request
+    # that went through the same configuration history answers that single request
     if answers != fresh:
         return False
+    if drift:
+        return None         # the resolution-order oracle of the model is not the one in force: its expectations do not transfer
     if spawn != mspawn or len(threads) != len(expects):
         return None          # another set of operations ran: the expectations of the model's trace do not transfer
     for t, e in zip(threads, expects):
@@ -2000,7 +2281,26 @@ def kinds(case, obs):
             seenq = False
             warm = set()
             chain = None
-            for st in case['hist']:
+            eff = effective(case['hist'])
+            for a, b2 in batches(case['hist']):
+                k.append('hist-commit-batch')
+                xs = [j for j in range(a, b2) if case['hist'][j]['t'] == 'X']
+                if xs:
+                    k.append('hist-commit-fails')
+                    if any(case['hist'][j]['t'] == 'V' for j in range(a, xs[0])):
+                        k.append('hist-commit-fails-after-a-view-action-ran')
+                        if any(x['t'] == 'Q' for x in case['hist'][:a]):
+                            k.append('hist-commit-fails-after-a-view-action-ran-warm-cache')
+                    if any(case['hist'][j]['t'] == 'V' for j in range(xs[0], b2)):
+                        k.append('hist-commit-drops-later-view-actions')
+            for idx, st in enumerate(case['hist']):
+                if st['t'] == 'X' or (st['t'] == 'V' and not eff[idx]):
+                    continue
+                if st['t'] == 'A':
+                    k.append('hist-route-added-again' + ('-use-global-views' if st['g'] else ''))
+                    if any(x[1] == 2 for x in warm):
+                        k.append('hist-route-added-again-after-a-route-lookup')
+                    continue
                 if st['t'] == 'I':
                     k.append('hist-reinit')
                     if warm:
@@ -2015,7 +2315,11 @@ def kinds(case, obs):
                         k.append('hist-lookup-served-before-reinit-asked-again')
                     k15_served.add(key)
                     warm.add(key)
-                    if st['via'] == 2:
+                    if st['via'] == 2 and st['cl'] == 1:
+                        k.append('hist-excview-on-dispatched-request')
+                        if chain is not None and len(chain) > 1:
+                            k.append('hist-excview-on-redispatched-request')
+                    elif st['via'] == 2:
                         k.append('hist-via-invoke-subrequest')
                         if st.get('same') and chain is not None:
                             k.append('hist-redispatch-same-request-object')
